@@ -127,9 +127,10 @@ pub fn evaluate(ctx: &Ctx, knobs: &GenKnobs, calls: &[CallRec], exchanges: &[Exc
     c07(ctx, calls, exchanges, records);
     c09(ctx, knobs, calls, exchanges);
     c19(ctx, calls, exchanges);
-    c06(ctx, calls, exchanges, records);
-    c18(ctx, calls, exchanges);
-    let _ = is_async;
+    // blocking runs execute their calls strictly one after the other
+    let sequential = !is_async || calls.len() == 1;
+    c06(ctx, calls, exchanges, records, sequential);
+    c18(ctx, calls, exchanges, records, sequential);
 }
 
 fn signature(ctx: &Ctx, calls: &[CallRec], exchanges: &[Exchange]) {
@@ -815,7 +816,7 @@ fn json_prefix_is_doc(bytes: &[u8]) -> bool {
     matches!(it.next(), Some(Ok(_)))
 }
 
-fn c06(ctx: &Ctx, calls: &[CallRec], exchanges: &[Exchange], records: &[Record]) {
+fn c06(ctx: &Ctx, calls: &[CallRec], exchanges: &[Exchange], records: &[Record], sequential: bool) {
     let irx = ir();
     for ex in exchanges {
         let Some(call) = calls.get(ex.call as usize) else { continue };
@@ -882,8 +883,8 @@ fn c06(ctx: &Ctx, calls: &[CallRec], exchanges: &[Exchange], records: &[Record])
                 }
             }
         };
-        let invoked = ex.handler_after > ex.handler_before && calls.len() == 1;
-        let rec = if calls.len() == 1 { records.iter().find(|r| r.ep == call.ep) } else { None };
+        let invoked = ex.handler_after > ex.handler_before && sequential;
+        let rec = if sequential && invoked { records.get(ex.handler_before).filter(|r| r.ep == call.ep) } else { None };
         let accepted = matches!(ex.server, ServerOut::Ok(_)) || invoked;
         let faults = kinds(&ex.req_fired);
         match (&want, accepted) {
@@ -967,7 +968,7 @@ enum WantC {
     Either,
 }
 
-fn c18(ctx: &Ctx, calls: &[CallRec], exchanges: &[Exchange]) {
+fn c18(ctx: &Ctx, calls: &[CallRec], exchanges: &[Exchange], records: &[Record], sequential: bool) {
     let irx = ir();
     for ex in exchanges {
         let Some(call) = calls.get(ex.call as usize) else { continue };
@@ -1125,16 +1126,24 @@ fn c18(ctx: &Ctx, calls: &[CallRec], exchanges: &[Exchange]) {
             (WantC::OkHandler, CallResult::Ok(v)) => {
                 // with several calls in flight on one endpoint the scripted returns may be
                 // consumed in another order; C04 matches those, here the body is the reference
-                let reference = if calls.len() > 1 {
+                let reference = if !sequential {
                     std::str::from_utf8(&eff).ok().and_then(|s| crate::mirror::ret_from_json(call.ep, s))
                 } else {
                     None
                 };
-                let expected: &dyn DynVal = match &reference {
-                    Some(r) => &**r,
-                    None => &*call.ret,
+                // what the handler of *this* exchange returned (an earlier refused call may have left its
+                // scripted return behind for this one)
+                let returned = if sequential && ex.handler_after > ex.handler_before {
+                    records.get(ex.handler_before).and_then(|r| r.ret.as_ref())
+                } else {
+                    None
                 };
-                if calls.len() > 1 && reference.is_none() {
+                let expected: &dyn DynVal = match (&reference, returned) {
+                    (Some(r), _) => &**r,
+                    (None, Some(r)) => &**r,
+                    (None, None) => &*call.ret,
+                };
+                if !sequential && reference.is_none() {
                     // nothing to compare against
                 } else if !expected.eq_dyn(&**v) {
                     ctx.violation(
